@@ -5,7 +5,7 @@ Helper lemmas about the ownership ledger of the result.go model: `claim`, `clear
 import NriModel.Result
 
 namespace Nri.Result
-open Nri.Api
+open Nri.NApi
 
 theorem owner_clear_self (o : Owners) (c : Cid) (it : Item) : (clear o c it).owner c it = none := by
   unfold clear Owners.owner; exact AList.lookup_erase_self o (c, it)
